@@ -9,7 +9,7 @@ SRC_GLOBS = ['src/*.cpp', 'src/*/*.cpp', 'src/*.hpp', 'src/*/*.hpp', 'src/*.h',
 SKIP = {'slhaea.h'}
 
 def strip_ns(name):
-    parts = [p for p in name.split('::') if p not in ('gm2calc', 'detail', '')]
+    parts = [p for p in name.split('::') if p not in ('gm2calc', 'detail', 'thdm', '')]
     return '::'.join(parts)
 
 class World:
